@@ -20,7 +20,8 @@ CHECKS = {
         "no pose twice, increasing order, copies, inputs untouched, error iff "
         "nothing matches). Complete within that scope; contested counterparts, "
         "ties and exact-threshold hits all occur thousands of times. " 
-        "A third jitter of 2^-8 with thresholds 0, 2^-9, 2^-8, 0.25 decides tiny thresholds and max_diff = 0; exceptions other than SyncException are violations.",
+        "A third jitter of 2^-8 with thresholds 0, 2^-9, 2^-8, 0.25 decides tiny thresholds and max_diff = 0; exceptions other than SyncException are violations. " 
+        "The very same trajectory object as both arguments (with every offset) is part of the space.",
         "Trusted: numpy float64 arithmetic on multiples of 0.125 (exact), the "
         "predicate oracle in mc/checks/c05.py. Not covered: > 8 stamps, "
         "off-grid stamps other than the literal F3 witness.",
@@ -36,7 +37,8 @@ CHECKS = {
         "sets, with and without scale; all on-axis / coincident tuples up to 4 "
         "points must be refused. Each result is checked for properness, "
         "optimality against an independent closed form (Horn), reproduction of "
-        "the generating map, equivariance and permutation invariance.",
+        "the generating map, equivariance and permutation invariance. " 
+        "Determined cases are repeated with the point sets as int64 / float32 (exactly representable), as a strided view and as read-only arrays: same transformation.",
         "Trusted: numpy eigh/SVD; Horn oracle in mc/refmodel/geom.py; "
         "condition-aware tolerances (eps*|coordinate|/spread). Not covered: "
         "point sets outside the enumerated grids.",
@@ -53,7 +55,8 @@ CHECKS = {
         "quantities are compared with the model; states are de-duplicated on "
         "content + hidden cache state, so every reachable combination of "
         "'which views were read before which write' is visited. " 
-        "Initial objects also hold their matrices as one (n,4,4) array; the alphabet contains a left multiplication with the propagation switch on and calls that evo rejects (which must change nothing).",
+        "Initial objects also hold their matrices as one (n,4,4) array; the alphabet contains a left multiplication with the propagation switch on and calls that evo rejects (which must change nothing). " 
+        "A single-pose trajectory and a two-pose path are initial objects; an object whose timestamps are not one per pose is a violation.",
         "Trusted: reference model in mc/checks/c08.py; state canonicalisation "
         "(content rounded to 1e-9 + set of existing caches). Not covered: "
         "histories longer than the depth bound, trajectories other than the "
@@ -72,7 +75,8 @@ CHECKS = {
         "--save_table for every ordered selection of 1..3 result files x "
         "use_filenames x merge: CSV rows/labels/values, duplicate labels "
         "refused. " 
-        "evo_res over six result files: three plain ones, a name with glob metacharacters next to the sibling it would match, a NaN statistic, a different statistic set.",
+        "evo_res over six result files: three plain ones, a name with glob metacharacters next to the sibling it would match, a NaN statistic, a different statistic set. " 
+        "merge_results also with arrays in other representations (int64 / float32 first or later, one array object under two keys, read-only).",
         "Trusted: the predicate in mc/checks/c13.py, csv parsing. Not covered: "
         "lists longer than the bound, result files other than the three APE "
         "fixtures.",
@@ -91,7 +95,8 @@ CHECKS = {
         "objects; after every step every other object is bitwise unchanged "
         "and internally consistent; the state includes the buffer-sharing "
         "graph. " 
-        "Heap objects also hold their matrices as one (n,4,4) array (views sharing one buffer; transitions are replayed, not deep-copied); writers are also given a result with NaN / inf statistics and info values.",
+        "Heap objects also hold their matrices as one (n,4,4) array (views sharing one buffer; transitions are replayed, not deep-copied); writers are also given a result with NaN / inf statistics and info values. " 
+        "A derive operation that builds a second object from the very pose list of the first; copy/deepcopy/pickle are table entries observed without deep copies; trajectories carry metadata dicts.",
         "Trusted: snapshots through deepcopy; np.shares_memory for the "
         "aliasing graph. Not covered: heaps > 3 objects, depth beyond bound.",
         "DESIGN.md 4/C16"),
@@ -184,7 +189,8 @@ CHECKS = {
         "direct parsing vs -c generated.json; namespace differences are "
         "decided by executing both and comparing outputs. Part C: -c "
         "priority, per-run settings override, locked container. " 
-        "Reset of every single key, adjacent pair and prefix-related pair from a file in which every key holds a user value; a set whose value tokens are all numeric must not raise.",
+        "Reset of every single key, adjacent pair and prefix-related pair from a file in which every key holds a user value; a set whose value tokens are all numeric must not raise. " 
+        "generate cases include the same option given twice with different values.",
         "Trusted: introspection of argparse actions; output comparison of "
         "result zips / exported files. Not covered: short options, triples of "
         "options.",
@@ -200,7 +206,8 @@ CHECKS = {
         "x on-grid (exact hits), off-grid and unsatisfiable deltas x "
         "tolerances: index range, exact frame sets/chains, chain property, "
         "minimality of j, start bound, maximality, closest-within-tolerance, "
-        "each eligible i once, exact angle band, empty <=> FilterException.",
+        "each eligible i once, exact angle band, empty <=> FilterException. " 
+        "All-pairs path mode also with tolerances of 1.0 and above.",
         "Trusted: predicates in mc/checks/c10.py; three-valued comparisons "
         "within 1e-9 for accumulated angles. Not covered: longer sequences, "
         "off-grid geometry.",
@@ -234,7 +241,8 @@ CHECKS = {
         "value referring to the right pose, stored trajectories = processed "
         "ones ([0]+end poses for RPE, zero-distance pairs skipped "
         "consistently), values = definition x factor. " 
-        "Every assembly case also with an exact copy of the reference as estimate (all errors exactly zero).",
+        "Every assembly case also with an exact copy of the reference as estimate (all errors exactly zero). " 
+        "rpe() also with support_loop=True.",
         "Trusted: reference definitions in mc/checks/c12.py; pair selection "
         "taken from evo's id_pairs_from_delta (decided by C10).",
         "DESIGN.md 4/C12"),
@@ -250,7 +258,8 @@ CHECKS = {
         "poses unchanged, second projection refused without effect. The xz "
         "heading defect is a listed known finding (K1), matched only on its "
         "exact mapping. " 
-        "Also after project() calls rejected for their argument, with matrices held as one (n,4,4) array, and through ape()/rpe() with project_to_plane on equal-but-distinct trajectories.",
+        "Also after project() calls rejected for their argument, with matrices held as one (n,4,4) array, and through ape()/rpe() with project_to_plane on equal-but-distinct trajectories. " 
+        "evo_traj --project_to_plane together with association / alignment / merge is judged through C15's pipeline.",
         "Trusted: numpy rotation oracle. Not covered: rotations outside the "
         "alphabets.",
         "DESIGN.md 4/C14"),
@@ -270,7 +279,8 @@ CHECKS = {
         "product in the thorough tier, pairwise + 9216-point sub-product in "
         "the quick tier - error_array and timestamps from the saved zip vs "
         "the reference pipeline incl. predicted refusals. " 
-        "Plus geometry variants of the estimate file (mirrored copy, both trajectories displaced by 5e4 m, the reference file given twice) x relation x alignment x n_to_align; an exception escaping from evo is a violation.",
+        "Plus geometry variants of the estimate file (mirrored copy, both trajectories displaced by 5e4 m, the reference file given twice) x relation x alignment x n_to_align; an exception escaping from evo is a violation. " 
+        "A burst variant (two estimate poses contending for one reference pose): the contested association is adopted from evo's primitive after it passed C05's predicate.",
         "Trusted: reference pipeline and definitions (mc/refmodel, "
         "mc/checks/ape_rpe_common.py), Horn oracle, evo's project() for the "
         "orientation of non-planar projections, one 8-pose fixture.",
@@ -287,7 +297,8 @@ CHECKS = {
         "under different rigid motions; zero for identical relative motions. "
         "evo_rpe lattice (14 dimensions; pairwise + full sub-products) vs the "
         "reference pipeline. " 
-        "Plus geometry variants of the estimate file (mirrored copy, displaced by 5e4 m, the reference given twice) x relation x delta x pairing x alignment.",
+        "Plus geometry variants of the estimate file (mirrored copy, displaced by 5e4 m, the reference given twice) x relation x delta x pairing x alignment. " 
+        "Quarter-turn deltas (90 deg, pi/2) in all-pairs mode over references that keep turning past 180/360 deg; in the evo_rpe lattice the selected pairs are judged by C10's predicate oracle.",
         "Trusted: as C01; the pair selection itself is evo's "
         "id_pairs_from_delta (decided by C10) applied to the trajectory the "
         "property names.",
@@ -304,7 +315,8 @@ CHECKS = {
         "trajectories, unicode info, empty / 2-D arrays), of DataFrame "
         "conversions (explicit types), and a ROS1 bag (positions/quaternions "
         "exact, frame id, stamps within 1 ns). " 
-        "Result info strings run through an alphabet (undecodable file-name bytes as lone surrogates, control characters, astral plane, empty, long).",
+        "Result info strings run through an alphabet (undecodable file-name bytes as lone surrogates, control characters, astral plane, empty, long). " 
+        "Every alphabet value also as the first field of the first row (TUM, KITTI); bag export with three trajectories in one bag under their own topics.",
         "Trusted: numpy bit patterns. Not covered: ROS2 bag export (the "
         "installed rosbags writer needs an argument evo does not pass), "
         "denormals / values beyond 1e+-300.",
@@ -321,7 +333,8 @@ CHECKS = {
         "the right slots (independent tokenizer, quaternion->matrix formula, "
         "ns->s within 1 ulp), malformed ones raise FileInterfaceException; "
         "files without data rows; evo-written files parsed independently; "
-        "transform files in 3 forms incl. 8 invalid classes.",
+        "transform files in 3 forms incl. 8 invalid classes. " 
+        "Text transforms also in other whitespace layouts (padded columns, tabs, indentation and trailing blanks, CRLF without final newline, comment line).",
         "Trusted: mc/refmodel/files.py, Python float(). EuRoC rows are "
         "malformed if < 8 columns or inconsistent with the other rows.",
         "DESIGN.md 4/C07"),
@@ -339,7 +352,8 @@ CHECKS = {
         "else is written in place, outputs are written otherwise; a "
         "completeness guard introspects the parsers for uncovered output "
         "options. " 
-        "Bystander files with neighbouring names exist in every initial state and may never change; extension-less plot target also with savefig.format = pdf.",
+        "Bystander files with neighbouring names exist in every initial state and may never change; extension-less plot target also with savefig.format = pdf. " 
+        "Writers are also called with the flag by position / left at its default; one path given to two output options of evo_ape/evo_rpe is judged by an event monitor (every write onto a then-existing path needs a question answered y since the last write to it).",
         "Trusted: input() substitution, directory snapshots. Excluded: "
         "--logfile (append), bag exports (time-stamped names).",
         "DESIGN.md 4/C17"),
@@ -353,7 +367,8 @@ CHECKS = {
         "coordinates and axis labels are read back from the artists and "
         "compared with the columns named by the mode; xyz/rpy/speed plots "
         "(called twice on the same objects) and error_array against shifted "
-        "timestamps / index; plot.trajectories() for dict/list/single.",
+        "timestamps / index; plot.trajectories() for dict/list/single. " 
+        "add_start_end_markers with the caller's own symbols (also one symbol for both ends); plot.trajectories() also for tuple, generator, iterator and dict view.",
         "Trusted: matplotlib artist accessors (incl. private 3-D fields). "
         "Agg backend only.",
         "DESIGN.md 4/C20"),
